@@ -222,10 +222,10 @@ class Bench:
         try:
             if self.kind == "gthread":
                 conn = TConn(self.cfg, proxy, peer, self.listener.getsockname())
-                conn.init()
                 keep = True
                 while keep:
                     o.handled += 1
+                    conn.init()          # as ThreadWorker.enqueue_req does for every request of the connection
                     keep, _ = w.handle(conn)
                     if keep and not w.alive:
                         keep = False
@@ -312,9 +312,9 @@ class Interleaver:
             try:
                 if b.kind == "gthread":
                     conn = TConn(b.cfg, ps, peer, b.listener.getsockname())
-                    conn.init()
                     keep = True
                     while keep:
+                        conn.init()      # as ThreadWorker.enqueue_req does for every request of the connection
                         keep, _ = w.handle(conn)
                         if keep and not w.alive:
                             keep = False
